@@ -23,6 +23,7 @@ mod p12;
 mod rsim;
 mod p13;
 mod p14;
+mod p18;
 
 use driver::*;
 
@@ -77,6 +78,10 @@ macro_rules! families {
             }
             "C14" => {
                 type $f = p14::C14;
+                $body
+            }
+            "C18" => {
+                type $f = p18::C18;
                 $body
             }
             other => {
